@@ -142,4 +142,166 @@ theorem max_newsroom_roundtrip (arte k rows : Nat) (bits : List Nat)
   have hmb := maxBytes_pack arte harte (rows * k) bits hlen hlt
   simp [CocoVerif.Model.Img.max, hrt, hmb, pure, Except.pure]
 
+/-! ### PIX: square, stored column by column, two rows per byte -/
+
+def grey (v : Nat) : Nat := 255 - v * 17
+
+/-- the byte at (column y, row pair x) of an image given as a function row → column → 0..15 -/
+def pixByte (img : Nat → Nat → Nat) (x y : Nat) : Nat := img (2 * x) y * 16 + img (2 * x + 1) y
+
+def colBytes (img : Nat → Nat → Nat) (y : Nat) : Nat → Nat → List Nat
+  | _, 0 => []
+  | x, k + 1 => pixByte img x y :: colBytes img y (x + 1) k
+
+def encPix (img : Nat → Nat → Nat) (h : Nat) : Nat → Nat → List Nat
+  | _, 0 => []
+  | y, k + 1 => colBytes img y 0 h ++ encPix img h (y + 1) k
+
+def greyImage (img : Nat → Nat → Nat) (side : Nat) : List Nat :=
+  (List.range (side * side)).map (fun i => grey (img (i / side) (i % side)))
+
+def doneAt (y x r c : Nat) : Prop := c < y ∨ (c = y ∧ r < 2 * x)
+
+def Good (img : Nat → Nat → Nat) (side : Nat) (s : List Nat) (y x : Nat) : Prop :=
+  s.length = side * side ∧ ∀ r c, r < side → c < side → doneAt y x r c → s[r * side + c]? = some (grey (img r c))
+
+theorem idx_lt (side r c : Nat) (hr : r < side) (hc : c < side) : r * side + c < side * side := by
+  have : r * side + c < (r + 1) * side := by rw [Nat.add_mul]; omega
+  have h2 : (r + 1) * side ≤ side * side := Nat.mul_le_mul_right side (by omega)
+  omega
+
+theorem idx_inj (side r c r' c' : Nat) (hc : c < side) (hc' : c' < side)
+    (h : r * side + c = r' * side + c') : r = r' ∧ c = c' := by
+  have hs : 0 < side := by omega
+  have d1 : (side * r + c) / side = r := by rw [Nat.mul_add_div hs, Nat.div_eq_of_lt hc]; omega
+  have d2 : (side * r' + c') / side = r' := by rw [Nat.mul_add_div hs, Nat.div_eq_of_lt hc']; omega
+  have m1 : (side * r + c) % side = c := by rw [Nat.mul_add_mod, Nat.mod_eq_of_lt hc]
+  have m2 : (side * r' + c') % side = c' := by rw [Nat.mul_add_mod, Nat.mod_eq_of_lt hc']
+  rw [Nat.mul_comm r, Nat.mul_comm r'] at h
+  rw [h] at d1 m1
+  exact ⟨by omega, by omega⟩
+
+/-- one byte: both of its pixels are placed, nothing already placed is disturbed -/
+theorem pixSet_good (img : Nat → Nat → Nat) (side h : Nat) (hside : side = 2 * h) (s : List Nat) (y x : Nat)
+    (hy : y < side) (hx : x < h) (himg : ∀ r c, img r c < 16) (hg : Good img side s y x) :
+    Good img side (pixSet side s x y (pixByte img x y)) y (x + 1) := by
+  obtain ⟨hl, hd⟩ := hg
+  have ha := himg (2 * x) y
+  have hb := himg (2 * x + 1) y
+  have hdiv : pixByte img x y / 16 = img (2 * x) y := by unfold pixByte; omega
+  have hmod : pixByte img x y % 16 = img (2 * x + 1) y := by unfold pixByte; omega
+  have e1 : x + x = 2 * x := by omega
+  have e2 : x + x + 1 = 2 * x + 1 := by omega
+  have i1 : 2 * x * side + y < s.length := by rw [hl]; exact idx_lt side (2 * x) y (by omega) hy
+  have i2 : (2 * x + 1) * side + y < s.length := by rw [hl]; exact idx_lt side (2 * x + 1) y (by omega) hy
+  refine ⟨by simp [pixSet, hl], ?_⟩
+  intro r c hr hc hdone
+  simp only [pixSet, e1, e2, hdiv, hmod]
+  by_cases h2 : (2 * x + 1) * side + y = r * side + c
+  · obtain ⟨rfl, rfl⟩ := idx_inj side _ _ _ _ hy hc h2
+    rw [List.getElem?_set_self (by simpa using i2)]
+    simp [grey, Nat.mul_comm]
+  · rw [List.getElem?_set_ne h2]
+    by_cases h1 : 2 * x * side + y = r * side + c
+    · obtain ⟨rfl, rfl⟩ := idx_inj side _ _ _ _ hy hc h1
+      rw [List.getElem?_set_self i1]
+      simp [grey, Nat.mul_comm]
+    · rw [List.getElem?_set_ne h1]
+      apply hd r c hr hc
+      rcases hdone with hlt | ⟨rfl, hrr⟩
+      · exact Or.inl hlt
+      · right
+        refine ⟨rfl, ?_⟩
+        -- r < 2x+2 and r is neither 2x nor 2x+1
+        have n1 : r ≠ 2 * x := fun hh => h1 (by rw [hh])
+        have n2 : r ≠ 2 * x + 1 := fun hh => h2 (by rw [hh])
+        omega
+
+/-- one column: `k` bytes from row pair `x` on -/
+theorem pixRow_good (img : Nat → Nat → Nat) (side h : Nat) (hside : side = 2 * h) (y : Nat) (hy : y < side)
+    (himg : ∀ r c, img r c < 16) :
+    ∀ (k x : Nat) (s rest : List Nat), x + k = h → Good img side s y x →
+      ∃ s', pixRow side y k x s (colBytes img y x k ++ rest) = .ok (s', rest) ∧ Good img side s' y h
+  | 0, x, s, rest, hk, hg => ⟨s, by simp [pixRow, colBytes, pure, Except.pure], by
+      have : x = h := by omega
+      subst this; exact hg⟩
+  | k + 1, x, s, rest, hk, hg => by
+      have hstep := pixSet_good img side h hside s y x hy (by omega) himg hg
+      obtain ⟨s', hrun, hgood⟩ := pixRow_good img side h hside y hy himg k (x + 1) _ rest (by omega) hstep
+      exact ⟨s', by simpa [pixRow, colBytes] using hrun, hgood⟩
+
+theorem good_next_col (img : Nat → Nat → Nat) (side h : Nat) (hside : side = 2 * h) (s : List Nat) (y : Nat)
+    (hg : Good img side s y h) : Good img side s (y + 1) 0 := by
+  refine ⟨hg.1, ?_⟩
+  intro r c hr hc hdone
+  apply hg.2 r c hr hc
+  rcases hdone with hlt | ⟨_, h0⟩
+  · by_cases hcy : c = y
+    · exact Or.inr ⟨hcy, by omega⟩
+    · exact Or.inl (by omega)
+  · omega
+
+/-- all columns -/
+theorem pixRows_good (img : Nat → Nat → Nat) (side h : Nat) (hside : side = 2 * h) (himg : ∀ r c, img r c < 16) :
+    ∀ (k y : Nat) (s : List Nat), y + k = side → Good img side s y 0 →
+      ∃ s', pixRows side k y s (encPix img h y k) = .ok s' ∧ Good img side s' side 0
+  | 0, y, s, hk, hg => ⟨s, by simp [pixRows, pure, Except.pure], by
+      have : y = side := by omega
+      subst this; exact hg⟩
+  | k + 1, y, s, hk, hg => by
+      have hh : side / 2 = h := by omega
+      obtain ⟨s1, hrow, hg1⟩ := pixRow_good img side h hside y (by omega) himg h 0 s (encPix img h (y + 1) k) (by omega) hg
+      obtain ⟨s2, hrows, hg2⟩ := pixRows_good img side h hside himg k (y + 1) s1 (by omega) (good_next_col img side h hside s1 y hg1)
+      refine ⟨s2, ?_, hg2⟩
+      simp only [pixRows, encPix, hh, hrow, bind, Except.bind]
+      exact hrows
+
+theorem good_final (img : Nat → Nat → Nat) (side : Nat) (s : List Nat) (hg : Good img side s side 0) :
+    s = greyImage img side := by
+  obtain ⟨hl, hd⟩ := hg
+  apply List.ext_getElem
+  · simp [greyImage, hl]
+  · intro i h1 h2
+    have hi : i < side * side := by rw [← hl]; exact h1
+    have hs : 0 < side := by
+      rcases Nat.eq_zero_or_pos side with h0 | h0
+      · subst h0; simp at hi
+      · exact h0
+    have hr : i / side < side := (Nat.div_lt_iff_lt_mul hs).mpr hi
+    have hc : i % side < side := Nat.mod_lt _ hs
+    have hidx : i / side * side + i % side = i := by rw [Nat.mul_comm]; exact Nat.div_add_mod i side
+    have := hd (i / side) (i % side) hr hc (Or.inl hc)
+    rw [hidx, List.getElem?_eq_getElem h1] at this
+    simp only [Option.some.injEq] at this
+    simp [greyImage, this]
+
+theorem encPix_length (img : Nat → Nat → Nat) (h : Nat) : ∀ (k y : Nat), (encPix img h y k).length = k * h
+  | 0, _ => by simp [encPix]
+  | k + 1, y => by
+      have hc : ∀ (n x : Nat), (colBytes img y x n).length = n := by
+        intro n; induction n with
+        | zero => intro x; rfl
+        | succ n ih => intro x; simp [colBytes, ih]
+      simp [encPix, hc, encPix_length img h k (y + 1), Nat.add_mul]; omega
+
+/-- **PIX round trip**: for every even side and every image (a function row → column → 0..15),
+the file that stores it column by column, two rows per byte, decodes to the grey image `255 − 17·v`
+in row-major order.  `hsq` (the integer square root of a square) is a fact about `Nat.sqrt` that
+core Lean does not prove; it is decidable for every concrete side. -/
+theorem pix_roundtrip (img : Nat → Nat → Nat) (h : Nat) (himg : ∀ r c, img r c < 16)
+    (hsq : Nat.sqrt ((2 * h) * h * 2) = 2 * h) :
+    pix (encPix img h 0 (2 * h)) = .ok (ppmHeader "P5" (2 * h) (2 * h) ++ greyImage img (2 * h)) := by
+  have hlen : (encPix img h 0 (2 * h)).length = 2 * h * h := encPix_length img h (2 * h) 0
+  have hg0 : Good img (2 * h) (List.replicate ((2 * h) * h * 2) 97) 0 0 := by
+    refine ⟨?_, ?_⟩
+    · simp; rw [Nat.mul_assoc, Nat.mul_comm h 2]
+    · intro r c _ _ hd
+      rcases hd with h1 | ⟨_, h2⟩ <;> omega
+  obtain ⟨s', hrows, hgood⟩ := pixRows_good img (2 * h) h rfl himg (2 * h) 0 _ (by omega) hg0
+  simp only [pix, hlen, hsq, hrows, bind, Except.bind, pure, Except.pure]
+  rw [good_final img (2 * h) s' hgood]
+
+/-- the premise holds, e.g. for the 128 × 128 pictures of the repository's fixture size -/
+example : Nat.sqrt ((2 * 64) * 64 * 2) = 2 * 64 := by decide +kernel
+
 end CocoVerif.Props.C16
